@@ -321,6 +321,10 @@ fn check_state(ctx: &mut Ctx, d: &Dirs, program: &str, ops: &[Op], caps: Process
         if (1..3).contains(&placement) && ops.is_empty() {
             continue;
         }
+        // the copy placements multiply the number of children by 2.3: short states only
+        if placement >= 3 && ops.len() > 2 {
+            continue;
+        }
         check_state_placed(ctx, d, program, ops, caps, spawned, refused, &m, placement)
             .map_err(|(c, mut j)| {
                 j["placement"] = json!(["straight-line", "each call in a loop body", "each call in a function", "a copy is configured further, the original runs",
